@@ -11,3 +11,46 @@ package iolib
 // listed as such in the evidence of property C08.
 //@ func (*File).cleanup
 //@   effects os-release
+
+// C04 sweep of the io library.  Assumed (installed by the library's loader and
+// never removed): the registry holds the library's *ioData under ioKey, and its
+// default input and output are userdata holding files.  A value accepted as a
+// file argument holds a non-nil *File.
+//@ func getIoData
+//@   trusted
+//@   requires r != nil
+//@   modifies nothing
+//@   ensures result0 != nil && result0.defaultOutput != nil && result0.defaultInput != nil
+
+//@ func (*ioData).defaultOutputFile
+//@   trusted
+//@   requires d != nil
+//@   modifies nothing
+//@   ensures result0 != nil
+
+//@ func (*ioData).defaultInputFile
+//@   trusted
+//@   requires d != nil
+//@   modifies nothing
+//@   ensures result0 != nil
+
+//@ func ValueToFile
+//@   trusted
+//@   modifies nothing
+//@   ensures result1 ==> result0 != nil
+
+//@ func FileArg
+//@   prop C04
+//@   arith int
+//@   requires c != nil && 0 <= n && n < len(c.args)
+//@   modifies nothing
+//@   ensures result1 == nil ==> result0 != nil
+
+// ioflush is registered as io.flush (no slot) and also called by file:flush with
+// the file in slot 0: it only reads slot 0 when NArgs() says it was pushed.
+//@ func ioflush
+//@   prop C04
+//@   arith int
+//@   requires t != nil && t.Runtime != nil && c != nil && c.GoFunction != nil && c.next != nil && 0 <= c.nArgs && c.nArgs <= len(c.args)
+//@   modifies everything()
+//@   exits ContextTerminationError
